@@ -463,7 +463,9 @@ EGLPNUM_TYPENAME_QSLIB_INTERFACE int EGLPNUM_TYPENAME_QSopt_pivotin_row (
 		ILL_ERROR (rval, "pricing info not available in EGLPNUM_TYPENAME_QSopt_pivotin_row\n");
 	}
 
-	if (p->lp->basisid == -1 || p->lp->vstat == 0)
+	/* after an edit that dropped the factorization the working basis inside
+	 * p->lp still has the shape of the problem before the edit */
+	if (p->lp->basisid == -1 || p->lp->vstat == 0 || !p->factorok)
 	{
 		QSlog("no basis available in EGLPNUM_TYPENAME_QSopt_pivotin_row");
 		rval = 1;
@@ -513,7 +515,9 @@ EGLPNUM_TYPENAME_QSLIB_INTERFACE int EGLPNUM_TYPENAME_QSopt_pivotin_col (
 		ILL_ERROR (rval, "pricing info not available in QSopt_pivotin\n");
 	}
 
-	if (p->lp->basisid == -1 || p->lp->vstat == 0)
+	/* after an edit that dropped the factorization the working basis inside
+	 * p->lp still has the shape of the problem before the edit */
+	if (p->lp->basisid == -1 || p->lp->vstat == 0 || !p->factorok)
 	{
 		QSlog("no basis available in EGLPNUM_TYPENAME_QSopt_pivotin_col");
 		rval = 1;
